@@ -40,12 +40,13 @@ def main():
             props = [c['property_id'] for c in json.load(open('/verif/MANIFEST.json'))['checks']]
         res['checks'] = {}
         for p in props:
-            k = sh('timeout 600 /venv/bin/python -m sa.check %s' % p, env=dict(os.environ, VERIF_REPO=wt), cwd='/verif')
+            k = sh('timeout 600 /venv/bin/python -m sa.check %s' % p, env=dict(os.environ, VERIF_REPO=wt, VERIF_SUBRUN='1', VERIF_SUBRUN_OUT=wt + '-out'), cwd='/verif')
             fails = [l for l in k.stdout.splitlines() if l.startswith('FAIL') or l.startswith('ANALYSIS-ERROR')]
             res['checks'][p] = {'exit': k.returncode, 'fails': fails[:6]}
     finally:
         sh('git -C /repo worktree remove --force %s' % wt)
         shutil.rmtree(wt, ignore_errors=True)
+        shutil.rmtree(wt + '-out', ignore_errors=True)
     print(json.dumps(res, indent=1))
 
 main()
